@@ -152,6 +152,11 @@ func quoteArg(a string) string {
 	if plain {
 		return a
 	}
+	if strings.ContainsAny(a, "\n\r") && !strings.Contains(a, "'") {
+		// single quotes keep line breaks and the blanks around them as they are (a double-quoted
+		// string is re-indented and trimmed line by line)
+		return "'" + a + "'"
+	}
 	return `"` + strings.NewReplacer(`\`, `\\`, `"`, `\"`).Replace(a) + `"`
 }
 
@@ -653,6 +658,10 @@ var localPrefixes = []string{"x", "p", "oc-ext", "", "d2"}
 
 var argPool = []string{"a", "b", "c", "x1", "a b", "", "urn:x", "1", "2001-01-01", "2002-02-02", "true", "\u00e9t\u00e9", "q\"uo\\te", "tab\there", "{;}"}
 
+// arguments with white space at the edges, all-blank arguments: the node's name is the argument byte
+// for byte, on every node type
+var blankArgs = []string{" a", "a ", " a b ", "\ta", "a\t", "a\n", "\na", "a \n", " ", "  ", "\t", "\n", " \n ", "[a-z]+ ", " /x/y ", "1..2 "}
+
 func (g *rgen) arg(s *gs) {
 	if g.r.Intn(25) == 0 {
 		return // no argument
@@ -661,6 +670,9 @@ func (g *rgen) arg(s *gs) {
 	s.arg = argPool[g.r.Intn(len(argPool))]
 	if g.r.Intn(60) == 0 {
 		s.arg = []string{"a@b", "@", "m@2001-01-01"}[g.r.Intn(3)] // refused as a module name by Modules.add, fine elsewhere
+	}
+	if g.r.Intn(6) == 0 {
+		s.arg = blankArgs[g.r.Intn(len(blankArgs))]
 	}
 }
 
@@ -856,6 +868,13 @@ var corpus = []string{
 	"module demo2 { namespace urn:demo2; prefix d2; leaf x { d2:type int8; type string; } }",
 	"module demo2 { namespace urn:demo2; prefix d2; leaf x { type string; d2:type int8; :type a; type: b; } }",
 	"module m { namespace n; prefix p; x:belongs-to m { prefix p; } }",
+	// the name is the argument byte for byte, white space at the edges included, on every node type
+	"module m { namespace n; prefix p; leaf l { type string { pattern '[a-z]+ '; length \" 1..2 \"; } must ' a = b '; } }",
+	"module m { namespace n; prefix p; leaf l { type string { pattern \"[a-z]+\" + \" \"; } must \"a\" + \"\\n\"; } }",
+	"module ' m ' { namespace ' n '; prefix ' p '; augment ' /x ' { uses ' g ' { refine ' r '; } } deviation '\t/d\n' { deviate ' not-supported '; } }",
+	"module m { namespace n; prefix p; typedef ' t ' { type ' enumeration ' { enum ' e '; enum ''; enum ' '; bit ' b '; range ' 1..2 '; } } }",
+	"module m { namespace n; prefix p; container '' { leaf ' ' { type '\n'; } } list \"\" { key \" \"; } }",
+	"submodule ' s ' { belongs-to ' m ' { prefix ' p '; } }",
 	// names with '@' are refused by Modules.add for modules and submodules only
 	"module a@b { namespace n; prefix p; }",
 	"submodule s@2001-01-01 { belongs-to m { prefix p; } }",
@@ -1126,6 +1145,29 @@ func main() {
 			}
 		}
 	}
+	// every keyword of the table with every white-space-edged / all-blank / empty / absent argument, in
+	// a minimal valid context
+	blankCases := 0
+	for _, K := range parents {
+		base := K
+		top := "module"
+		if K == "submodule" {
+			base, top = "module", "submodule"
+		}
+		path, ok := pth[base]
+		if !ok {
+			continue
+		}
+		for i, a := range append(append([]string{}, blankArgs...), "", "~") {
+			k := minimal(K, 0)
+			k.arg = a
+			if a == "~" {
+				k.hasArg, k.arg = false, ""
+			}
+			addTree(fmt.Sprintf("blank argument %s #%d", K, i), []*gs{embed(path, k, top)})
+			blankCases++
+		}
+	}
 	// every keyword as a top-level statement, alone and after a valid module
 	for _, K := range childs {
 		addTree("top "+K, []*gs{minimal(K, 0)})
@@ -1190,12 +1232,14 @@ func main() {
 		"Exhaustive part: every (parent keyword, child keyword, multiplicity) triple with the parent in a minimal valid module " +
 		"(and submodule) context, child keywords = every keyword of the table + meta-names Name/Statement/Parent/Ext + unknown + " +
 		"prefixed (one colon) + two-colon keywords; every such keyword as a top-level statement alone and after a valid module; " +
-		"for every parent keyword and every field k of its node type an extension statement <pfx>:k with k absent / before k / after k. " +
+		"for every parent keyword and every field k of its node type an extension statement <pfx>:k with k absent / before k / after k; " +
+		"every keyword with arguments that have blanks, tabs or line feeds at the edges, all-blank, empty and absent arguments. " +
 		"Random part: seeded random trees to depth 4."
 	res.Distribution["corpus_cases"] = nCorpus
 	res.Distribution["exhaustive_cases"] = nExh
 	res.Distribution["triples"] = triples
 	res.Distribution["look_alike_cases"] = lookAlikes
+	res.Distribution["blank_argument_cases"] = blankCases
 	res.Distribution["parent_keywords"] = len(parents)
 	res.Distribution["child_keywords"] = len(childs)
 	res.Distribution["multiplicities"] = fmt.Sprint(mults)
